@@ -96,7 +96,8 @@ H0 == [st |-> "data", tag |-> <<>>, end |-> FALSE, attrs |-> <<>>, an |-> <<>>, 
        self |-> FALSE, elem |-> <<>>, lang |-> "", sub |-> NoSub, tmp |-> <<>>, ret |-> "", sig |-> <<>>]
 
 Feed1(h, c) == IF h.lang \in {"", "data"} THEN h
-               ELSE LET s2 == SubStep(h.lang, h.sub, c) IN [h EXCEPT !.sub = s2, !.sig = @ \o s2.o]
+               ELSE LET s2 == SubStep(h.lang, h.sub, c) IN
+                    IF s2.o = <<>> THEN (IF s2 = h.sub THEN h ELSE [h EXCEPT !.sub = s2]) ELSE [h EXCEPT !.sub = s2, !.sig = @ \o s2.o]
 RECURSIVE FeedFrom(_, _, _)
 FeedFrom(h, cs, i) == IF i > Len(cs) THEN h ELSE FeedFrom(Feed1(h, cs[i]), cs, i + 1)
 FeedSeq(h, cs) == IF h.lang \in {"", "data"} THEN h ELSE FeedFrom(h, cs, 1)
@@ -327,5 +328,10 @@ HPending(h) == IF h.st \in RawStates THEN SubFlush(h.lang, h.sub) ELSE <<>>
 HNorm(h) == [h EXCEPT !.sig = <<>>, !.attrs = <<>>, !.sub = SubNorm(h.lang, h.sub)]
 
 \* structure signature of a whole document
-Signature(s) == LET h == HRun(H0, s) IN [toks |-> h.sig \o HPending(h), fin |-> HClass(h)]
+SigOfState(h) == [toks |-> h.sig \o HPending(h), fin |-> HClass(h)]
+Signature(s) == SigOfState(HRun(H0, s))
+\* the same, resuming from the state h reached after the first p bytes of s
+RECURSIVE HRunRange(_, _, _, _)
+HRunRange(h, s, i, j) == IF i > j THEN h ELSE HRunRange(HDo(h, s[i]), s, i + 1, j)
+SignatureFrom(h, p, s) == SigOfState(HRunRange(h, s, p + 1, Len(s)))
 =============================================================================
